@@ -913,6 +913,7 @@ type result struct {
 	Depth    int          `json:"depth_delta"`
 	RerunOK  bool         `json:"rerun_ok"`
 	Attempts []attemptRec `json:"attempts"`
+	NAttempts int         `json:"n_attempts"`
 	Steps    uint64       `json:"steps"`
 }
 
@@ -1104,15 +1105,16 @@ func runScenario(prog *starlark.Program, kinds []int, frozen []bool, sizes []int
 	res.Steps = th.ExecutionSteps() - steps0
 	res.Depth = th.CallStackDepth() - depth0
 	res.Attempts = r.attempts
-	if len(res.Attempts) > 500 {
-		res.Attempts = res.Attempts[:500]
+	res.NAttempts = len(r.attempts)
+	if len(res.Attempts) > 8000 { // a runaway scenario: keep the report finite
+		res.Attempts = res.Attempts[:8000]
 	}
 	for _, v := range w.colls {
 		n, _ := starlark.VerifIterCount(v)
 		res.IC = append(res.IC, n)
 		c := content(v)
-		if len(c) > 200 {
-			c = append(c[:200:200], "...")
+		if len(c) > 5000 { // a runaway scenario: keep the report finite
+			c = append(c[:5000:5000], "...")
 		}
 		res.Content = append(res.Content, c)
 	}
